@@ -18,7 +18,7 @@ prop(
     "through rotate() + update_largest + on_packet_acked per acknowledged number / may_loss_packet per number: on_packet_acked "
     "yields exactly the recorded multiset the first time and nothing afterwards, may_loss_packet the multiset while unacknowledged, "
     "numbers without recorded frames yield nothing, fast_retransmit exactly the in-flight packets below the largest acknowledged whose "
-    "retransmit time passed; a packet declared lost whose expiry time passed may be forgotten (then it must stay forgotten).",
+    "retransmit time passed; a packet declared lost whose expiry time passed may be forgotten (then it must stay forgotten). Whole-stack leg (l2): the clause \"frames of packets declared lost are reported for retransmission\" also depends on how qconnection wires each space's loss feedback to its journal; bounded-fault scenarios of the C02 engine are run and, whenever one stalls, every CRYPTO / STREAM range that an endpoint's own qlog declares lost must appear again in a later packet of the same space (provided the endpoint sent at least ten more packets).",
     level_note="Trusted: the set/map models, ack-frame construction/enumeration helpers (cross-checked against AckFrame::iter), tokio's "
     "paused clock. update_largest accepting largest == next unsent number is property C04's clause and not exercised here (ACKs name "
     "sent numbers only). A diagnostic mirror of the journal's own (laxer) forgetting rule classifies the one known divergence "
@@ -26,9 +26,11 @@ prop(
     "fast_retransmit has no production caller; it is driven per its documented contract in 3 of 4 history styles.",
     design_ref="DESIGN.md §3 C10",
     legs=[dict(name="journals", crate="l1rec", sub="c10", shards={Q: 16, T: 16}, budget={Q: 1200, T: 50000}, timeout=3600),
+          dict(name="l2", crate="l2", sub="c10", shards={Q: 8, T: 16}, budget={Q: 6, T: 100}, timeout={Q: 900, T: 7200}),
           dict(name="miri", kind="miri", crate="l1rec", sub="c10", tiers=(T,), args=["--interp", "1"], budget={T: 4}, timeout=3600, mandatory=False)],
     floors={
         Q: {
+            "bounded_scenarios": 40,
             "ack_frames_requested": 100_000,
             "ack_frames_complete": 30_000,
             "ack_frames_truncated": 10_000,
